@@ -34,4 +34,6 @@ func VerifC07_OsPathConfinement() {
 	}
 	inside := p == "/ks" || strings.HasPrefix(p, "/ks/")
 	verif.Assert(inside, "os-path-inside-root")
+	// ... also after the operating system has resolved it: no ".." component is left to climb out with
+	verif.Assert(!strings.Contains(p+"/", "/../"), "os-path-has-no-dot-dot-component")
 }
